@@ -267,24 +267,62 @@ func fieldTypeName(field protoreflect.FieldDescriptor) (string, error) {
 }
 
 func contextRefName(contextOfCall protoreflect.Descriptor, refElement protoreflect.Descriptor) (string, error) {
+	fullName := string(refElement.FullName())
 
 	if contextOfCall.ParentFile().Package() != refElement.ParentFile().Package() {
 		// if the thing the field references is in a different package, then the
-		// full reference is used
-		return string(refElement.FullName()), nil
+		// full reference is used.
+		// The first component of a name is looked up in the enclosing package
+		// scopes first: 'b.v1.T' written inside package 'a.b.v1' would resolve
+		// to 'a.b.v1.T', so such names need the leading dot.
+		first, _, _ := strings.Cut(fullName, ".")
+		contextPackage := strings.Split(string(contextOfCall.ParentFile().Package()), ".")
+		for _, part := range contextPackage[1:] {
+			if part == first {
+				return "." + fullName, nil
+			}
+		}
+		return fullName, nil
 	}
 
 	refPath := pathToPackage(refElement)
 	contextPath := pathToPackage(contextOfCall)
 
 	for i := 0; i < len(contextPath); i++ {
-		if len(refPath) == 0 || refPath[0] != contextPath[i] {
+		// always keep the name of the element itself: a message referring to
+		// itself is 'Foo', not ''
+		if len(refPath) <= 1 || refPath[0] != contextPath[i] {
 			break
 		}
 		refPath = refPath[1:]
 	}
 
+	if refIsShadowed(contextOfCall, refPath, fullName) {
+		return "." + fullName, nil
+	}
+
 	return strings.Join(refPath, "."), nil
+}
+
+// refIsShadowed reports whether the relative name, looked up from the scopes
+// enclosing the context as protobuf does (innermost first), finds a different
+// declaration than the intended one: a nested type of an enclosing message
+// with the same first name captures the reference.
+func refIsShadowed(contextOfCall protoreflect.Descriptor, refPath []string, fullName string) bool {
+	if len(refPath) == 0 {
+		return false
+	}
+	first := protoreflect.Name(refPath[0])
+	for scope := contextOfCall.Parent(); scope != nil; scope = scope.Parent() {
+		msg, ok := scope.(protoreflect.MessageDescriptor)
+		if !ok {
+			return false
+		}
+		if msg.Messages().ByName(first) != nil || msg.Enums().ByName(first) != nil {
+			return string(msg.FullName())+"."+strings.Join(refPath, ".") != fullName
+		}
+	}
+	return false
 }
 
 func pathToPackage(refElement protoreflect.Descriptor) []string {
